@@ -711,6 +711,7 @@ impl Net {
                 }
             }
             "unblock" => self.proxy.block(false),
+            "freeze" => self.proxy.freeze(s["on"].as_bool().unwrap_or(true)),
             "dial" => {
                 let ya = self.y_addr();
                 let _ = self.nodes[0].cmd_tx.send(NodeCmd::Dial(ya));
